@@ -81,6 +81,8 @@ def negotiation_oracle(header):
             best_q, best = q, {canon}
         elif q == best_q:
             best.add(canon)
+    if best and best_q == 0.0:
+        best = best | {XML}  # RFC 7231: q=0 means "not acceptable" - falling back to the default is as admissible as honouring it
     return best or {XML}
 
 
@@ -98,8 +100,9 @@ def accept_headers(draw, tier="quick"):
         s = t
         if draw(st.integers(0, 2)) > 0:
             digits = draw(st.integers(1, 3))
-            q = draw(st.integers(1, 10 ** digits))
-            qs = "1" if q == 10 ** digits else "0." + str(q).rjust(digits, "0")
+            # weight zero is part of the grammar too ("q=0", "q=0.0", ...): it must rank below every positive weight
+            q = 0 if draw(st.integers(0, 5)) == 0 else draw(st.integers(1, 10 ** digits))
+            qs = "1" if q == 10 ** digits else ("0" if q == 0 and draw(st.booleans()) else "0." + str(q).rjust(digits, "0"))
             if qs == "1" and draw(st.booleans()):
                 qs = "1." + "0" * draw(st.integers(0, 3))
             s += draw(ows) + ";" + draw(ows) + "q=" + qs
@@ -130,7 +133,9 @@ def check_negotiation(case, stats: Stats) -> None:
         n_sup = sum(1 for part in h.split(",") if SYNONYMS.get(part.split(";")[0].strip(" \t"), part.split(";")[0].strip(" \t")) in SUPPORTED)
         ws = any(ch in h for ch in " \t")
         qv = "q=" in h
-        if ws and qv and n_sup >= 2:
+        if n_sup >= 2 and any(b.strip(" \t").partition("=")[2].strip(" \t") in ("0", "0.0", "0.00", "0.000") for part in h.split(",") for b in part.split(";")[1:]):
+            stats.nontrivial({"header": h}, "zero-weight+2supported")
+        elif ws and qv and n_sup >= 2:
             stats.nontrivial({"header": h}, "whitespace+q+2supported")
         elif ws:
             stats.cls("header:whitespace")
